@@ -21,6 +21,7 @@ let () = each_line (fun l ->
     expect t "XB"; let xb = read_ta t in let pmb = read_pm t in
     expect t "XR"; let xr = read_ta t in let pmxr = read_pm t in
     expect t "XBR"; let xbr = read_ta t in let pmbr = read_pm t in
+    expect t "UN"; let un = read_ta t in expect t "XN"; let xn = read_ta t in expect t "XBN"; let xbn = read_ta t in
     expect t "I"; let ia = read_ta t in let ib = read_ta t in
     let fails = ref [] and drift = ref [] in
     let gate n b = if not b then fails := n :: !fails in
@@ -40,6 +41,9 @@ let () = each_line (fun l ->
        Intersection indeed does not expand pairs it finds in the map). Observed, reported as drift for IntersectionBU only. *)
     ignore xr; ignore pmxr;
     dr "isectbu_reused_map" (isect_gate a b xbr && names_isect pmbr a b xbr && List.for_all (fun e -> List.mem e pmbr) pmb);
+    gate "union_nomaps_lang" (union_gate a b un);
+    gate "isect_nomaps_lang" (isect_gate a b xn);
+    gate "isectbu_nomaps_lang" (isect_gate a b xbn);
     gate "operand_changed" (ta_same a ia && ta_same b ib);
     (if !fails = [] then "OK" else "FAIL " ^ String.concat "," (List.rev !fails))
     ^ (if !drift = [] then "" else " DRIFT " ^ String.concat "," (List.rev !drift))
